@@ -268,11 +268,11 @@ fn run_prompt_job(job: &Job, cnt: &mut BTreeMap<String, u64>) -> Option<Violatio
 
 pub fn run(ctx: &Ctx) -> Coverage {
     let mut items = c13_items();
-    items.extend(crate::gen::lark_family(ctx.tier.pick(2, 3)));
+    items.extend(crate::gen::lark_family(ctx.tier.pick(3, 4)));
     let kinds: Vec<VKind> = if ctx.quick() { vec![VKind::Multi2Canon, VKind::Multi3Canon] } else { vec![VKind::Multi2Canon, VKind::Multi3Canon, VKind::B256Canon, VKind::TikCanon(500)] };
     let jobs = make_jobs(&items, &kinds);
-    let depth = ctx.tier.pick(5, 9);
-    let max_states = ctx.tier.pick(400, 6000);
+    let depth = ctx.tier.pick(7, 10);
+    let max_states = ctx.tier.pick(3000, 20000);
     run_jobs(ctx, &jobs, |job| {
         let big = job.vocab.n() > 200;
         let cfg = ExploreCfg { max_depth: if big { 3 } else { depth }, max_states: if big { max_states / 8 } else { max_states }, use_key: true };
